@@ -181,9 +181,100 @@ def generate():
            "def efCSRCount (nx : Nat) : Nat := %s" % csr_cnt,
            "def efSpectrum (renorm reZ normF : α) : α := ((renorm * reZ) * normF)",
            "def efPowerTerm (dfreq spectrum : α) : α := (dfreq * spectrum)",
-           "def efCSRLoops (nmax : Nat) : List Nat := [%s]\n" % ", ".join(spec_loop[-1:]),
-           "end Inovesa.Gen"]
+           "def efCSRLoops (nmax : Nat) : List Nat := [%s]\n" % ", ".join(spec_loop[-1:])]
+    out += plumbing()
+    out.append("end Inovesa.Gen")
     return "\n".join(out) + "\n"
+
+
+def preprocessed_own_text():
+    """the translation unit after the preprocessor (inactive OpenCL branches gone), restricted to the lines of SRC itself,
+    white space removed"""
+    import os
+    import re
+    import subprocess
+    import cxxast
+    args = [a for a in cxxast.CLANG_ARGS if a not in ("-fsyntax-only",)] + ["-E", os.path.join(cxxast.REPO, SRC)]
+    p = subprocess.run(args, stdout=subprocess.PIPE, stderr=subprocess.PIPE, text=True)
+    if p.returncode != 0:
+        raise Unsupported("preprocessing failed: " + p.stderr[:300])
+    own, keep = [], False
+    for l in p.stdout.split("\n"):
+        if l.startswith("# "):
+            keep = SRC in l
+            continue
+        if keep:
+            own.append(l)
+    return re.sub(r"\s+", "", "\n".join(own))
+
+
+def body_of(text, header):
+    i = text.find(header)
+    if i < 0:
+        raise Unsupported("function %s not found" % header)
+    j = text.index("{", i)
+    depth, k = 0, j
+    while True:
+        if text[k] == "{":
+            depth += 1
+        elif text[k] == "}":
+            depth -= 1
+            if depth == 0:
+                return text[j + 1:k]
+        k += 1
+
+
+def events(body, table, what):
+    """ordered list of the events of `table` (regex -> name) found in `body`; every statement-level `;` chunk that matches
+    none of them and is not white-listed makes the fragment unsupported"""
+    import re
+    found = []
+    for rx, name in table:
+        for m in re.finditer(rx, body):
+            found.append((m.start(), name))
+    found.sort()
+    return [n for _, n in found]
+
+
+def plumbing():
+    import re
+    t = preprocessed_own_text()
+    tr = re.findall(r"(_fft_\w+)=fft::prepareFFT\((\w+),(\w+),(\w+)\);", t)
+    al = re.findall(r"(\w+)=fft::fft_alloc_(real|complex)\((\w+)\);", t)
+    if sorted(x[0] for x in tr) != ["_fft_bunchprofile", "_fft_wakelosses"] or len(al) != 4:
+        raise Unsupported("transform plans %r / buffer allocations %r" % (tr, al))
+    wake = body_of(t, "vfps::ElectricField::wakePotential()")
+    wake_ev = events(wake, [(r"padBunchProfiles\(\);", "padBunchProfiles"),
+                            (r"fft::fft_execute\((_fft_\w+)\);", "execute"),
+                            (r"for\(unsignedinti=0;i<_nmax/2;i\+\+\)\{_wakelosses\[i\]=\(\*_impedance\)\[i\]\*_formfactor\[i\];\}", "losses"),
+                            (r"_wakepotential\[b\]\[x\]=_wakescaling\*_wakepotential_padded\[", "scale"),
+                            (r"return_wakepotential\.data\(\);", "return")], "wakePotential")
+    ex = re.findall(r"fft::fft_execute\((_fft_\w+)\);", wake)
+    csr = body_of(t, "vfps::ElectricField::updateCSR(constfrequency_tcutoff_frequency)")
+    csr_ev = events(csr, [(r"for\(uint32_tn=0;n<_nbunches;n\+\+\)", "bunch-loop"),
+                          (r"std::fill_n\(_bp_padded,_nmax,integral_t\(0\)\);", "clear"),
+                          (r"std::copy_n\(bp\.origin\(\),PhaseSpace::nx,_bp_padded\);", "copy"),
+                          (r"fft::fft_execute\(_fft_bunchprofile\);", "execute"),
+                          (r"_csrintensity\[n\]=0;", "zero-power"),
+                          (r"for\(unsignedinti=0;i<_nmax;i\+\+\)", "spectrum-loop"),
+                          (r"return_csrspectrum\.data\(\);", "return")], "updateCSR")
+    pad = body_of(t, "vfps::ElectricField::padBunchProfiles()")
+    pad_ev = events(pad, [(r"std::fill_n\(_bp_padded,_nmax,integral_t\(0\)\);", "clear"),
+                          (r"for\(uint32_tb=0;b<PhaseSpace::nb;b\+\+\)", "bunch-loop"),
+                          (r"std::copy_n\(", "copy")], "padBunchProfiles")
+
+    def sl(xs):
+        return "[" + ", ".join('"%s"' % x for x in xs) + "]"
+    return ["/-- the two transforms: plan, length, input buffer, output buffer (forward: profile -> form factor; backward: losses -> padded wake) -/",
+            "def efTransforms : List (String × String × String × String) := [%s]" % ", ".join(
+                '("%s", "%s", "%s", "%s")' % x for x in sorted(tr)),
+            "/-- buffers handed to the transforms: name, real/complex, length -/",
+            "def efBuffers : List (String × String × String) := [%s]" % ", ".join('("%s", "%s", "%s")' % x for x in sorted(al)),
+            "/-- statement order of wakePotential() (CPU path), the plans executed in it; of updateCSR(); of padBunchProfiles() -/",
+            "def efWakeSequence : List String := %s" % sl(wake_ev),
+            "def efWakeExecutes : List String := %s" % sl(ex),
+            "def efCSRSequence : List String := %s" % sl(csr_ev),
+            "def efPadSequence : List String := %s\n" % sl(pad_ev)]
 
 
 if __name__ == "__main__":
